@@ -2,6 +2,7 @@
 from hypothesis import strategies as st
 
 from vgv import gen, model as M, obsutil
+from vgv import prelude
 from vgv.framework import Check, guarded
 
 RULE = ('non-trivial = quarter turn q != 0 with a non-square grid or an asymmetric area, and at least one non-floor object in view; '
@@ -30,6 +31,7 @@ def strat(draw, tier):
 
 
 def oracle(case, ctx):
+    prelude.door_first(ctx)
     sd, area, f, q = case['state'], case['area'], case['f'], case['q']
     from vgv import objs
 
